@@ -18,7 +18,7 @@ from .. import observe as ob
 from . import c05
 
 PROP = "C11"
-RUNS = {"quick": 4000, "thorough": 400000}
+RUNS = {"quick": 4000, "thorough": 200000}
 WALL = {"quick": 280, "thorough": 3500}
 RULE = ("one run = document containing the E cell (run index mod 144) + scheduled delivery + C05 history; "
         "collections of every segment compared with the model at every settled step; distinct = distinct "
